@@ -846,6 +846,11 @@ func c09CloseBubble(c *wk.Ctx, idx int64, r *rand.Rand) {
 			st.icmp6.StartHunt(packet.Addr{MAC: hw(c09MACs[i]), IP: c09IPs()[6+2*i]})
 		}
 		for i := 0; i < 40; i++ {
+			if i%5 == 0 {
+				// progress marker for the driver's CPU watchdog: under the race detector a bubble with its quiet periods costs
+				// seconds of CPU as a whole, a stretch of five frames a fraction of one
+				c.Begin(idx*16+int64(i/5), "c09-close", nil)
+			}
 			b := c09Frame(r, e)
 			if frame, err := st.s.Parse(b); err == nil {
 				st.dispatch(frame)
@@ -855,6 +860,7 @@ func c09CloseBubble(c *wk.Ctx, idx int64, r *rand.Rand) {
 				time.Sleep(time.Duration(r.Intn(7)) * time.Second)
 			}
 			if i == 20 || i == 30 {
+				c.Begin(idx*16+10+int64(i/30), "c09-close", nil)
 				// minutes without traffic (virtual time costs nothing): the slow background timers - the 3 minute NIC monitor,
 				// the minute ticker's purge, the hunts' repeats - run between two packets, under the race detector
 				time.Sleep(time.Duration(200+r.Intn(200)) * time.Second)
@@ -862,6 +868,7 @@ func c09CloseBubble(c *wk.Ctx, idx int64, r *rand.Rand) {
 			}
 		}
 		synctest.Wait()
+		c.Begin(idx*16+9, "c09-close", nil)
 		st.arp.Close()
 		st.icmp6.Close()
 		st.dhcp.Close()
@@ -887,6 +894,7 @@ func runC09(c *wk.Ctx) {
 		cr.run()
 		for j := 0; j < 5; j++ {
 			c09CloseBubble(c, idx*1000+900+int64(j), r)
+			c.Begin(idx*1000+990+int64(j), "c09-close-done", nil)
 		}
 	}
 }
